@@ -29,7 +29,7 @@ pub struct HistPlan
 
 fn plan(sc: Scenario, depth: usize) -> HistPlan
 {
-    HistPlan { scenario: sc, clock: ClockModel::Strict, depth, paired: false, c10: false, secs: 40, max_states: 4_000_000, ordered: true }
+    HistPlan { scenario: sc, clock: ClockModel::Strict, depth, paired: false, c10: false, secs: 40, max_states: 3_000_000, ordered: true }
 }
 
 /// Runs the plans for one property, fills the report.
@@ -252,7 +252,7 @@ pub fn run_sched_plans(rep: &mut Report, id: &str, cases: Vec<SchedCase>, phases
             if found { break; }
         }
         // self-check of the reduction: whatever plain enumeration reached, the complete reduced search reached too
-        if por_complete
+        if por_complete && !case.name.starts_with("damaged-")
         {
             for k in unreduced_outcomes.iter()
             {
@@ -552,6 +552,7 @@ fn check(id: &str, tier: &str) -> i32
             rep.assume("shuttle reports 'no runnable task but unfinished tasks' as deadlock; a step cap of 200000 scheduling points stands in for livelock (ruler has no spin loops)");
             let mut cases = schedeng::success_cases(tier);
             cases.extend(schedeng::failure_cases(tier));
+            cases.extend(schedeng::damage_cases(tier));
             run_sched_plans(&mut rep, id, cases, phases(tier), Oracles::default());
         },
         "C06" =>
